@@ -206,10 +206,11 @@ func hasTagC(d cdoc, tag string) bool {
 
 func oracleC15(r *rng, n int, tier string) *oracleResult {
 	res := &oracleResult{Stats: map[string]int{}}
-	docs := codecDocs(r, n, tier)
+	// (also: operations and documents whose `security` is absent, the empty list - an operation opting out - and non-empty)
+	docs := append(codecDocs(r, n, tier), gobExtraDocs()...)
 	seen := map[string]bool{}
 	for _, d := range docs {
-		if (!d.nf || d.phase == 3) && !hasTagC(d, "status-spelling") {
+		if (!d.nf || d.phase == 3) && !hasTagC(d, "status-spelling") && !hasTagC(d, "security-state") {
 			// (response names of any spelling are kept: whatever the encoding of the decoded document holds is what pointers address)
 			continue
 		}
